@@ -179,10 +179,12 @@ SHAPES = ['function', '__init__', '__new__', 'both', 'neither', 'metaclass', '__
           'method-wrapper', 'slot wrapper', 'method descriptor', 'bound builtin method',
           'builtin class dict', 'collections.OrderedDict', 'bound Python method',
           'falsy class (metaclass __len__ == 0)', 'falsy callable object',
-          'class with registered staticmethod and classmethod']
+          'class with registered staticmethod and classmethod',
+          # round f: a class that only BORROWS (same attribute name) the registered method of a class nested in it
+          'class borrowing the registered method of its nested class']
 MODULE_LEVEL = [m_fn, MInit, MNew, MBoth, MNeither, MMeta, MSlots, MNamed, MColl, MAbc, M_CALLABLE, sum, None,
                 MData, MFrozen, MExc, M_METHOD_WRAPPER, M_SLOT_WRAPPER, M_METHOD_DESCRIPTOR, M_BOUND_BUILTIN,
-                dict, collections.OrderedDict, M_BOUND, MFalsy, M_FALSY_CALLABLE, None]
+                dict, collections.OrderedDict, M_BOUND, MFalsy, M_FALSY_CALLABLE, None, None]
 NS = len(SHAPES)
 APIS = ['configurable', 'register', 'external_configurable']
 FORMS = ['name, module= given', 'bare decorator / no name']
@@ -196,6 +198,7 @@ BUILTIN_CLASSES = (20, 21)
 # clause of C01; the statement of C13 says nothing about caller-supplied arguments, so these combinations are
 # not judged here (empty this tuple to judge them).
 POSITIONAL_SELF_SHIFT = (10, 22, 24)
+FRESH_ONLY = (26,)                        # built inside the path (its nested method registers on creation)
 WITH_MEMBERS = (12, 25)                   # registered members are re-keyed only by register / external_configurable
 
 
@@ -343,6 +346,17 @@ def fresh_shape(shape):
       def cmake(cls, m=DA):
         return ('cmake', m)
     return FMembers
+  if shape == 26:
+    class FBorrow:
+      """doc of FBorrow"""
+      class Helper:
+        @gin.register
+        def describe13(self, m=DA):
+          return ('describe13', m)
+      describe13 = Helper.describe13    # held under the function's own name; FBorrow has no registered method
+      def __init__(self, a=DA):
+        self.a = a
+    return FBorrow
   return None
 
 
@@ -384,7 +398,7 @@ def restore_registry(marks):
 
 def c13_shapes(shape: int, api: int, scoped: bool, v: int, form: int = 0, use: int = 0) -> bool:
   """
-  pre: 0 <= shape < 26 and 0 <= api < 3 and 0 <= form < 2 and 0 <= use < 3
+  pre: 0 <= shape < 27 and 0 <= api < 3 and 0 <= form < 2 and 0 <= use < 3
   """
   world.fresh()
   shape = rt.pick(shape, NS)
@@ -405,7 +419,7 @@ def c13_shapes(shape: int, api: int, scoped: bool, v: int, form: int = 0, use: i
     rt.discard()    # see the comment at POSITIONAL_SELF_SHIFT
   marks = registry_marks()
   with rt.native():
-    if api == 0 or shape in WITH_MEMBERS:
+    if api == 0 or shape in WITH_MEMBERS or shape in FRESH_ONLY:
       target = fresh_shape(shape)
       if target is None:
         target = MODULE_LEVEL[shape]
@@ -927,7 +941,7 @@ HARNESSES = {
         tiers={'quick': dict(split=dict(shape=list(range(NS)), api=[0, 1, 2]), budget_s=100),
                'thorough': dict(split=dict(shape=list(range(NS)), api=[0, 1, 2], form=[0, 1]),
                                 budget_s=300)},
-        bounds='26 shapes (function, class shapes __init__/__new__/both/neither/custom metaclass/__slots__/both '
+        bounds='27 shapes (function, class shapes __init__/__new__/both/neither/custom metaclass/__slots__/both '
                'namedtuple flavours/ABC subclass/dataclass with a default_factory field/frozen slots dataclass/'
                'Exception subclass/falsy class (metaclass __len__ == 0)/builtin classes dict and OrderedDict, '
                'callable object, falsy callable object, bound Python method, builtin sum (called, parameter start '
